@@ -96,6 +96,16 @@ func checkC13(c *Ctx) {
 						fresh = tgt.Pos >= lo && tgt.Pos <= hi
 						decTargetType = derefType(tgt.Type)
 					}
+					// a local of a helper that is called once per iteration is as fresh as a local of the loop body
+					if !fresh && tgt != nil && dec.Frame != nil && dec.Frame.Parent != nil && dec.Frame.Fn != nil {
+						if fd := c.declOf(dec.Frame.Fn); fd != nil && fd.Body != nil {
+							pos := tgt.Pos
+							if tgt.Kind == pw.KAddr && tgt.Obj != nil {
+								pos = tgt.Obj.Pos()
+							}
+							fresh = pos >= fd.Body.Pos() && pos <= fd.Body.End() && enclosingLoop(fd.Body, nodeAt(fd.Body, pos)) == nil
+						}
+					}
 					if !fresh {
 						if !bad {
 							r.Bad("R13.1", name, "decode-target-reused", c.Pos(dec.Pos),
@@ -446,7 +456,14 @@ func (c *Ctx) c13Counts(b BK, decodeTarget types.Object) {
 		}
 	}
 	// Walk: +1 per successful callback
-	for _, wname := range []string{b.Name + ".Walk"} {
+	wnames := []string{b.Name + ".Walk"}
+	if b.Name == "shardedMapOf" {
+		// the interface{}-typed Walker adapter of the generic map (reached through WalkDumpRestorer) has a loop of its own
+		if fd, _ := c.funcDecl("shardedMapLegacyWalkerOf.Walk"); fd != nil {
+			wnames = append(wnames, "shardedMapLegacyWalkerOf.Walk")
+		}
+	}
+	for _, wname := range wnames {
 		run := c.bk(b, wname, false)
 		if run.err != nil {
 			r.Unknown("R13.3", wname, run.err.Error())
@@ -570,7 +587,19 @@ func (c *Ctx) c13Counts(b BK, decodeTarget types.Object) {
 						}
 						return false
 					}
-					if !(a != nil && (a.Kind == pw.KRangeVal && (g.overData || fromCollected(a.Src)) || a.Kind == pw.KParam && g.begin.Note == "Range")) {
+					// a faithful copy built for the callback (the adapter converts the typed entry into the interface{} one): a fresh
+					// literal whose K, V and E are the iterated entry's own
+					faithful := false
+					if lit := pointee(a); lit != nil && (lit.Kind == pw.KAlloc || lit.Kind == pw.KZero) {
+						faithful = true
+						for _, f := range []string{"K", "V", "E"} {
+							fv := p.FieldOf(lit, f)
+							if fv == nil || fv.Kind != pw.KField || fv.Field == nil || fname(fv.Field) != f || fv.Src == nil || fv.Src.Kind != pw.KRangeVal {
+								faithful = false
+							}
+						}
+					}
+					if !faithful && !(a != nil && (a.Kind == pw.KRangeVal && (g.overData || fromCollected(a.Src)) || a.Kind == pw.KParam && g.begin.Note == "Range")) {
 						r.Bad("R13.3", wname, "walk-argument", c.Pos(cb.Pos), "the callback is not given the iterated stored entry", shortTrace(p))
 						bad = true
 					}
